@@ -193,6 +193,17 @@ impl ConsumerGroup {
         
         // Add each entry to pending list
         for entry in &entries {
+            // An entry that is already pending (the group was moved back with SETID) changes
+            // owner: it must not be counted twice
+            if let Some(previous) = pending.remove_entry(&entry.id) {
+                let mut consumers = self.consumers.write().unwrap();
+                if let Some(old_consumer) = consumers.get_mut(&previous.consumer) {
+                    old_consumer.pending_count = old_consumer.pending_count.saturating_sub(1);
+                }
+                let mut total = self.total_pending.lock().unwrap();
+                *total = total.saturating_sub(1);
+            }
+            
             let pending_entry = PendingEntry {
                 id: entry.id,
                 consumer: consumer.to_string(),
